@@ -132,6 +132,8 @@ type Interp struct {
 	unixOf     map[*Term]*Term
 	clockWindow *Term
 	pid        *Term
+	held       map[string][]byte
+	track      *trackState
 
 	// work sharing: the coordinator cuts paths after frontierDepth forking
 	// decisions and records the decision prefixes; workers explore below a pinned
@@ -201,6 +203,7 @@ func (in *Interp) resetPath() {
 	in.firstNow = nil
 	in.clockWindow = nil
 	in.pid = nil
+	in.held, in.track = nil, nil
 }
 
 // RunHarness explores all paths of the harness function.
